@@ -74,6 +74,8 @@ fn profile_from(a: &Args, default: &str) -> engine::Profile {
             p.steps = (n, n);
         }
     }
+    p.cap_shift = a.u64("capshift", 0) as usize;
+    p.perm_salt = a.u64("permsalt", 0);
     if a.flag("nofinal") {
         p.final_sync = false;
     }
@@ -116,16 +118,42 @@ fn main() {
                     // distinct interleavings: order in which the parallel sections reached their objects
                     let ev = melda::verif::take_trace();
                     let order: Vec<String> = ev.iter().map(|(p, k, t)| format!("{}{}@{:?}", p, k, t)).collect();
-                    let mut j = w.res.to_json(case, nt, em.trace);
+                    let mut j = w.res.to_json(case, nt, em.trace || a.flag("fulldigests"));
                     j["interleaving"] = json!(gen::sha(order.join(",").as_bytes())[..16].to_string());
                     j["hook_events"] = json!(ev.len());
                     let workers: std::collections::BTreeSet<Option<usize>> = ev.iter().map(|e| e.2).collect();
                     j["workers_seen"] = json!(workers.len());
                     println!("{}", j);
+                } else if a.flag("fulldigests") {
+                    println!("{}", w.res.to_json(case, nt, true));
                 } else {
                     em.case(case, &w.res, nt);
                 }
             }
+        }
+        "c04f10" => {
+            // dedicated case for known finding F10: a '!'-leading identifier under a single-object flattened key
+            let mut res = CaseResult::default();
+            let shapes = [
+                json!({"k\u{266D}": {"_id": "!x", "v": 1}}),
+                json!({"k\u{266D}": {"_id": "!", "v": "s"}}),
+                json!({"items\u{266D}": [{"_id": "a", "solo\u{266D}": {"_id": "!deep", "w": true}}]}),
+            ];
+            for (n, d) in shapes.iter().enumerate() {
+                let ad = store::plain_mem();
+                engine::set_caps((16, 16));
+                let m = melda::melda::Melda::new(ad).unwrap();
+                let up = obs::guard(|| m.update(d.as_object().unwrap().clone()));
+                let (got, ok) = obs::read_doc(&m);
+                let exp = serde_json::to_string(&gen::expected_read(d)).unwrap();
+                res.trace.push(format!("update({}) -> read {}", d, got));
+                if !up.is_ok() || !ok || got != exp {
+                    res.viol("C04", "bang-id-under-flattened-object-key", format!("shape {}: update({}) reads back {} (expected {})", n, d, got, exp));
+                }
+                res.count("c04_f10_shapes", 1);
+            }
+            res.opkinds = "f10".into();
+            em.case(0, &res, true);
         }
         "c01" => {
             let prof = profile_from(&a, "conflict");
